@@ -708,7 +708,18 @@ func (e *Engine) newSliceFrom(elem types.Type, elems []Value) SliceV {
 }
 
 // upperBound returns a syntactic upper bound (unsigned) for a term, or -1.
+var ubCache = map[*Term]int64{}
+
 func upperBound(t *Term) int64 {
+	if v, ok := ubCache[t]; ok {
+		return v
+	}
+	v := upperBound0(t)
+	ubCache[t] = v
+	return v
+}
+
+func upperBound0(t *Term) int64 {
 	switch t.op {
 	case OpConst:
 		if t.val > 1<<40 {
